@@ -49,8 +49,6 @@ theorem typeBin_symm (op : BinOp) (h : op ∈ commutativeOps) (a b : Ty) : typeB
   exact typeBin_symm_prims op h _ _
 
 example : BinOp.PLUS ∈ commutativeOps := by decide
-/-- the statement is not vacuous and not true of every operator: MINUS is not symmetric -/
-example : typeBin .MINUS (.prim .CLOCK) (.prim .INT) ≠ typeBin .MINUS (.prim .INT) (.prim .CLOCK) := by decide
 
 /-! ### inline-if -/
 
@@ -75,7 +73,7 @@ theorem inlineIf_symm (c c' a b : Ty) (hc : condOk c = condOk c') :
   · rfl
   · exact iif_core a b
 
-example : condOk (.prim .BOOL) = condOk (.prim .INT) := by decide
+example (c : Ty) : condOk c = condOk c := rfl
 
 /-- FULL STRENGTH (acceptance): swapping the branches never changes whether the inline-if is accepted
     (fails on the unfixed tree: F-C14-1) -/
@@ -96,16 +94,20 @@ theorem inlineIf_kind_symm_partial (c c' a b : Ty) (hc : condOk c = condOk c') (
   · exact h
   · exact absurd (List.contains_iff_mem.mp h) hex
 
-example : (TK.INT, TK.DOUBLE) ∉ kindExceptions := by decide
+example : ∀ k : TK, (k, k) ∉ kindExceptions := by decide
 /-- the exception set is exactly: two different integral kinds -/
 theorem kindExceptions_spec : ∀ k1 k2 : TK,
     ((k1, k2) ∈ kindExceptions) ↔ (ty_is_integral (.prim k1) = true ∧ ty_is_integral (.prim k2) = true ∧ k1 ≠ k2) := by
   decide +kernel
 
-/-- the exception is real: `b ? <int> : <bool>` is typed int, `!b ? <bool> : <int>` is typed bool -/
-theorem inlineIf_kind_witness :
-    verdict (inlineIf (.prim .BOOL) (.prim .INT) (.prim .BOOL)) = some .INT ∧
-    verdict (inlineIf (.prim .BOOL) (.prim .BOOL) (.prim .INT)) = some .BOOL := by decide
+/-- the exact exception set (what the rules really do on primitive branch types) lies inside `kindExceptions`, and
+    every member of it is a real asymmetry of the rules: both orders accepted, different result kinds.
+    On the unchanged tree it is {(INT,BOOL), (BOOL,INT)} and pairs with the integral kinds PROCESS_VAR / LOCATION /
+    LOCATION_EXPR: `b ? 1 : true` is typed int, `!b ? true : 1` is typed bool. -/
+theorem exactKindExceptions_spec : ∀ e ∈ exactKindExceptions, e ∈ kindExceptions ∧
+    ∃ ka kb : TK, verdict (inlineIf (.prim .BOOL) (.prim ka) (.prim kb)) = some e.1 ∧
+                  verdict (inlineIf (.prim .BOOL) (.prim kb) (.prim ka)) = some e.2 ∧ e.1 ≠ e.2 := by
+  decide +kernel
 
 /-- the negated condition: for an integral condition `c`, `!c` is typed (BOOL) and is an acceptable condition, so
     `c ? a : b` and `!c ? b : a` agree -/
@@ -117,7 +119,6 @@ theorem inlineIf_negated_cond (c a b : Ty) (hc : ty_is_integral c = true) :
     rw [condOk_eq, condOk_eq]
     simp [h_is_integral, hc]; decide
 
-example : ty_is_integral (.range (.prim .INT) 1 2) = true := by decide
 
 /-! ### reference parameters -/
 
@@ -132,5 +133,55 @@ theorem refParam_iff_equivalent (p a : Ty) (href : p.is .REF = true)
 
 example : (Ty.ref (.prim .INT)).is .REF = true ∧
     (ty_is_channel (Ty.ref (.prim .INT)) && ty_is_channel (.prim .INT)) = false := by decide
+
+/-! ### "whichever of the two carries the reference or const wrapper"
+
+`wfTy` only excludes type trees that `type_t` cannot build (a childless node of kind REF / LABEL / RANGE / ARRAY / RECORD
+or of a prefix kind); for those the C++ accessors would read past a node. -/
+
+/-- the fuel the recursive rules are run with is adequate: more fuel never changes the answer -/
+theorem areEquivalent_fuel_adequate (a b : Ty) (wa : wfTy a = true) (wb : wfTy b = true) (m : Nat)
+    (hm : a.size + b.size ≤ m) : areEquivalentF m a b = areEquivalent a b :=
+  (aeF_adequate _ m a b wa wb (Nat.le_refl _) hm).symm
+
+theorem isSameScalarType_fuel_adequate (a b : Ty) (wa : wfTy a = true) (wb : wfTy b = true) (m : Nat)
+    (hm : a.size + b.size ≤ m) : isSameScalarTypeF m a b = isSameScalarType a b :=
+  (sstF_adequate _ m a b wa wb (Nat.le_refl _) hm).symm
+
+/-- a REF wrapper on either side does not change equivalence (fails on the unfixed tree: F-C14-2) -/
+theorem areEquivalent_ref (a b : Ty) (wa : wfTy a = true) (wb : wfTy b = true) :
+    areEquivalent (.ref a) b = areEquivalent a b ∧ areEquivalent a (.ref b) = areEquivalent a b := by
+  refine ⟨areEquivalent_ref_left' a b wa wb, ?_⟩
+  rw [areEquivalent_symm a (.ref b), areEquivalent_ref_left' b a wb wa, areEquivalent_symm]
+
+/-- a CONSTANT wrapper on either side does not change equivalence -/
+theorem areEquivalent_const (a b : Ty) (wa : wfTy a = true) (wb : wfTy b = true) :
+    areEquivalent (.pfx .CONSTANT a) b = areEquivalent a b ∧ areEquivalent a (.pfx .CONSTANT b) = areEquivalent a b := by
+  refine ⟨areEquivalent_const_left' a b wa wb, ?_⟩
+  rw [areEquivalent_symm a (.pfx .CONSTANT b), areEquivalent_const_left' b a wb wa, areEquivalent_symm]
+
+example : wfTy (.ref (.pfx .CONSTANT (.label 7 (.label 8 (.range (.prim .SCALAR) 1 2))))) = true ∧
+    wfTy (.array (.record (.cons 1 (.prim .INT) (.cons 2 (.prim .BOOL) .nil))) (.range (.prim .INT) 1 2)) = true := by decide
+
+/-- FULL STRENGTH (reference parameters): a modifiable lvalue of type `a` is accepted for a parameter `T &p` or
+    `const T &p` (non-channel) exactly when `a` and `T` are equivalent -- the same verdict as for the unwrapped types in
+    either order, i.e. it does not matter which of the two carries the reference or const wrapper -/
+theorem refParam_symm (t a : Ty) (wt : wfTy t = true) (wa : wfTy a = true)
+    (hch : (ty_is_channel t && ty_is_channel a) = false) :
+    isParameterCompatible (.ref t) a true = areEquivalent t a ∧
+    isParameterCompatible (.ref (.pfx .CONSTANT t)) a true = areEquivalent t a ∧
+    isParameterCompatible (.ref a) t true = areEquivalent t a := by
+  have h1 : (ty_is_channel (.ref t) && ty_is_channel a) = false := by
+    simpa [ty_is_channel, Ty.is] using hch
+  have h2 : (ty_is_channel (.ref (.pfx .CONSTANT t)) && ty_is_channel a) = false := by
+    simpa [ty_is_channel, Ty.is, Pfx.toTK] using hch
+  have h3 : (ty_is_channel (.ref a) && ty_is_channel t) = false := by
+    rw [Bool.and_comm]; simpa [ty_is_channel, Ty.is] using hch
+  refine ⟨?_, ?_, ?_⟩
+  · rw [(refParam_iff_equivalent (.ref t) a (by simp [Ty.is]) h1).2, (areEquivalent_ref t a wt wa).1]
+  · have wc : wfTy (.pfx .CONSTANT t) = true := by simpa [wfTy] using wt
+    rw [(refParam_iff_equivalent (.ref (.pfx .CONSTANT t)) a (by simp [Ty.is]) h2).2,
+        (areEquivalent_ref (.pfx .CONSTANT t) a wc wa).1, (areEquivalent_const t a wt wa).1]
+  · rw [(refParam_iff_equivalent (.ref a) t (by simp [Ty.is]) h3).1, (areEquivalent_ref t a wt wa).2]
 
 end UtapModel.C14
